@@ -127,7 +127,8 @@ class Multiply(Contract):
     positional = ("x1", "x2", "out", "where")
     assumptions = ("B9: rows = distinct pair sums with convolution coefficients denote the product", "A1",
                    "assumed contract of the compiled cmultiply (same specification as the verified fallback loop)",
-                   "precondition: every exponent sum is storable (otherwise the constructor raises: C20); out=None, where=True")
+                   "precondition: every exponent sum is storable (otherwise the constructor raises: C20); where=True; out=None, or a target that "
+                   "has exactly the fields of the product (any dtype, any memory layout, any previous content)")
 
     def _loops(self):
         def havoc_state(ex, env):
@@ -217,6 +218,55 @@ class Multiply(Contract):
         def check(out):
             self._check(out)
         yield Case("", make_env, check, loops=self._loops())
+
+        # ---- out= given: a target that has exactly the fields of the product (the rows numpy.unique finds for the pair sums, in
+        # that order), the names of the aligned operands and the broadcast shape; its dtype, its layout in memory (C-contiguous
+        # or not) and its previous content are arbitrary.  `init` is False to begin with: nothing of the previous content may be read.
+        def make_env_out(ex):
+            env = make_env(ex)
+            ctx = ex.ctx
+            target = Poly(ctx, "target", region=Region("out", "out= target"), init=lambda t, i: z3.BoolVal(False))
+            ctx.assume(target.wf(ctx))
+            ctx.assume(ctx.forall_range(0, target.N, lambda t: keyok(target.row(t), target.D)))
+            ex.target = target
+
+            def after_pu(ex_, U_):
+                g = ex_.ghost
+                if "out" in g or "x1" not in g:
+                    return
+                pu = U_.pair_unique
+                x1 = g["x1"]
+                g["out"] = target
+                g["M"], g["upos"], g["usi"], g["usj"] = pu["M"], pu["upos"], pu["usi"], pu["usj"]
+                g["A"] = ex_.ctx.func("A", I, I, I, Idx, R)
+                for a in conv_axioms(ex_, g):
+                    ex_.ctx.assume(a)
+                # precondition on the target
+                ex_.ctx.assume(z3.And(target.N == pu["M"], target.D == x1.D, target.names == x1.names, target.shape == g["S"],
+                                      ex_.ctx.forall_range(0, pu["M"], lambda t: target.row(t) == U_.row(t))))
+                ex_.fill_target = target
+                ex_.field_hint = lambda ex__, key: (ex__.ghost["upos"](ex__.ghost["i"], ex__.ghost["j"])
+                                                    if "i" in ex__.ghost and "j" in ex__.ghost else None)
+            ex.hooks = dict(ex.hooks, after_pair_unique=after_pu)
+            env["out"] = target
+            return env
+
+        def check_out(out):
+            ex, ctx = out.ex, out.ctx
+            g = ex.ghost
+            ex.oblige(f"raises.nothing[{out.exc}:{out.value}]" if out.kind == "raise" else "raises.nothing", z3.BoolVal(out.kind == "return"), "post")
+            if out.kind != "return":
+                return
+            r = out.value
+            ex.oblige("post.the_target_is_returned", z3.BoolVal(r is ex.target and g.get("out") is ex.target), "post")
+            if r is not ex.target or g.get("out") is not ex.target:
+                return
+            x1, S, A, M = g["x1"], g["S"], g["A"], g["M"]
+            ex.oblige("post.every_field_of_the_target_holds_its_convolution_sum", ctx.forall_range(0, M, lambda t: ctx.forall_idx(
+                lambda idx: z3.And(r.init(t, idx), r.C(t, idx) == A(t, x1.N, 0, idx)), S)), "post",
+                note="every field written by this call (nothing of the previous content survives) with the sum of C1(i)*C2(j) over the "
+                     "pairs whose exponents add up to its row - whatever the dtype and the memory layout of the target")
+        yield Case("out=target", make_env_out, check_out, loops=self._loops())
 
     def _check(self, out):
         ex, ctx = out.ex, out.ctx
@@ -350,8 +400,16 @@ class PowerScalar(Contract):
                     return
                 ex_._acc_done = True
                 x1 = ex_.inputs[0]
+                def is_one(i):
+                    v = C[0].elem(i)
+                    if isinstance(v, (bool, z3.BoolRef)):
+                        return v if isinstance(v, z3.BoolRef) else z3.BoolVal(v)      # (a boolean unit: True)
+                    return v == 1
                 ex_.oblige("start.constant_one_of_the_operand_shape", z3.And(E.n == 1, mzero(E.row(0), E.D), C[0].shape == x1.shape,
-                                                                            ex_.ctx.forall_idx(lambda i: C[0].elem(i) == 1, x1.shape)), "post")
+                                                                            ex_.ctx.forall_idx(is_one, x1.shape)), "post")
+                ex_.oblige("start.constant_one_has_the_dtype_of_the_operand", C[0].dtype == x1.dtype, "post",
+                            note="x**0 is the constant one in the operand's coefficient type (C12); a unit of another type would be the result for "
+                                 "exponent 0 and decide the promoted type of every product")
                 ex_.ctx.assume(ex_.ctx.forall_idx(lambda i: r.val(i) == pone, x1.shape))
                 ex_.ctx.assume(r.shape == x1.shape)
             ex.hooks = {"after_from_attributes": after_fa}
